@@ -14,6 +14,8 @@ import (
 
 	"github.com/dave/dst"
 	"github.com/dave/dst/decorator"
+	"github.com/dave/dst/decorator/resolver/goast"
+	"github.com/dave/dst/decorator/resolver/simple"
 
 	"verif/internal/corpus"
 	"verif/internal/fw"
@@ -360,6 +362,10 @@ func runC13(c *fw.Ctx) {
 					return
 				}
 			}
+			// the same file decorated with import management (syntax-only resolver): only selectors
+			// whose operand is a bare identifier that names an import and is not a local object are
+			// merged into one identifier; everything else is visited as in go/ast
+			c13Goast(c, id, filepath.Base(p), src)
 			// (5) siblings in source order
 			for _, n := range seq {
 				var prev token.Pos
@@ -507,6 +513,79 @@ func runC13(c *fw.Ctx) {
 		}
 	}
 	_ = strings.TrimSpace
+}
+
+// c13Goast compares dst.Inspect over a tree decorated with the syntax-only import resolver with
+// ast.Inspect, the children of qualified identifiers (decided here from the parser's own object
+// resolution and the file's import names) left out.
+func c13Goast(c *fw.Ctx, id, name string, src []byte) {
+	names, ok := corpus.ImportNames(src)
+	if !ok || len(names) == 0 {
+		return
+	}
+	fset := token.NewFileSet()
+	af, err := parser.ParseFile(fset, name, src, parser.ParseComments)
+	if err != nil {
+		return
+	}
+	bound := map[string]bool{}
+	for _, im := range af.Imports {
+		p := strings.Trim(im.Path.Value, "\"`")
+		n := names[p]
+		if im.Name != nil {
+			n = im.Name.Name
+		}
+		if n == "." {
+			return // the syntax-only resolver refuses dot-imports
+		}
+		if n != "" && n != "_" {
+			bound[n] = true
+		}
+	}
+	d := decorator.NewDecoratorWithImports(fset, "example.com/self", goast.WithResolver(simple.New(names)))
+	var df *dst.File
+	if sig, detail := fw.Try(func() { df, err = d.DecorateFile(af) }); sig != "" {
+		c.Violate("decorate-panic", sig, id+" [goast]: "+detail, string(src))
+		return
+	}
+	if err != nil {
+		c.Count("inconclusive_goast_refused", 1)
+		return
+	}
+	var aseq []ast.Node
+	ast.Inspect(af, func(n ast.Node) bool {
+		switch v := n.(type) {
+		case nil:
+			return false
+		case *ast.CommentGroup, *ast.Comment:
+			return false
+		case *ast.SelectorExpr:
+			if x, ok := v.X.(*ast.Ident); ok && x.Obj == nil && bound[x.Name] {
+				aseq = append(aseq, n)
+				return false
+			}
+		}
+		aseq = append(aseq, n)
+		return true
+	})
+	var dseq []dst.Node
+	dst.Inspect(df, func(n dst.Node) bool {
+		if n != nil {
+			dseq = append(dseq, n)
+		}
+		return true
+	})
+	c.Count("files_walked_with_import_management", 1)
+	if len(aseq) != len(dseq) {
+		c.Violate("inspect-vs-ast", "inspect-vs-ast:goast:length", fmt.Sprintf("%s [goast]: ast.Inspect (qualified identifiers counted once) %d nodes, dst.Inspect %d", id, len(aseq), len(dseq)), string(src))
+		return
+	}
+	for k := range aseq {
+		if d.Dst.Nodes[aseq[k]] != dseq[k] {
+			c.Violate("inspect-vs-ast", "inspect-vs-ast:goast:order:"+refl.TypeName(aseq[k]), fmt.Sprintf("%s [goast]: position %d: ast %s at %s maps to %s but dst.Inspect gives %s", id, k, refl.TypeName(aseq[k]), fset.Position(aseq[k].Pos()), refl.TypeName(d.Dst.Nodes[aseq[k]]), refl.TypeName(dseq[k])), string(src))
+			return
+		}
+	}
 }
 
 // c13PackageVsAst decorates a go/ast package as one node and compares what dst.Inspect reaches with
